@@ -3,23 +3,32 @@
 package gldap
 
 import (
+	"fmt"
+
 	ber "github.com/go-asn1-ber/asn1-ber"
 )
 
 func init() {
 	vReg("H_C16_convert_total", H_C16_convert_total)
+	vReg("H_C16_convert_total2", H_C16_convert_total2)
 	vReg("H_C16_convert_roundtrip", H_C16_convert_roundtrip)
+	vReg("H_C16_sid", H_C16_sid)
+	vReg("H_C16_sid_total", H_C16_sid_total)
+	vReg("H_C16_entry", H_C16_entry)
+	vReg("H_C16_responses", H_C16_responses)
+	vReg("H_C16_controls", H_C16_controls)
+	vReg("H_C16_mux", H_C16_mux)
 }
 
-// ConvertString never panics, for 1..2 arbitrary strings.
+// ConvertString never panics on one arbitrary string.
 func H_C16_convert_total() {
-	n := 1 + vLen("nargs", 1)
-	args := make([]string, 0, 2)
-	args = append(args, vStr("s0"))
-	if n == 2 {
-		args = append(args, vStr("s1"))
-	}
-	_, _ = ConvertString(args...)
+	_, _ = ConvertString(vStr("s0"))
+	vReach("returned")
+}
+
+// ... nor on two (the loop continues correctly after the first).
+func H_C16_convert_total2() {
+	_, _ = ConvertString(vStr("s0"), vStr("s1"))
 	vReach("returned")
 }
 
@@ -36,4 +45,176 @@ func H_C16_convert_roundtrip() {
 		}
 	}
 	vReach("roundtrip")
+}
+
+// SIDBytesToString(SIDBytes(r, a)) == "S-r-a" for every r and a.
+func H_C16_sid() {
+	r, a := vU8("r"), vU16("a")
+	b, err := SIDBytes(r, a)
+	vAssert(err == nil, "SIDBytes no error")
+	if err != nil {
+		return
+	}
+	s, err := SIDBytesToString(b)
+	vAssert(err == nil, "SIDBytesToString no error")
+	if err == nil {
+		vAssert(s == fmt.Sprintf("S-%d-%d", r, a), "S-r-a")
+	}
+	vReach("sid")
+}
+
+// SIDBytesToString never panics on arbitrary bytes.
+func H_C16_sid_total() {
+	b := vBytes("b")
+	vAssume(len(b) <= 16)
+	_, _ = SIDBytesToString(b)
+	vReach("returned")
+}
+
+// NewEntry: same attribute order for every map iteration order; string and
+// byte values equal element by element, also after AddValue.
+func H_C16_entry() {
+	v1, v2, v3 := vStr("v1"), vStr("v2"), vStr("v3")
+	n := vLen("nattrs", 3)
+	m := map[string][]string{}
+	names := []string{"mail", "cn", "sn"}
+	vals := [][]string{{v1, v2}, {v3}, {}}
+	for i := 0; i < n; i++ {
+		m[names[i]] = vals[i]
+	}
+	e1 := NewEntry(vStr("dn"), m)
+	vPermute("perm")
+	e2 := NewEntry(vStr("dn"), m)
+	vAssert(len(e1.Attributes) == n && len(e2.Attributes) == n, "all attributes present")
+	for i := 0; i < len(e1.Attributes) && i < len(e2.Attributes); i++ {
+		vAssert(e1.Attributes[i].Name == e2.Attributes[i].Name, "same order on every call")
+		if i > 0 {
+			vAssert(e1.Attributes[i-1].Name < e1.Attributes[i].Name, "sorted by name")
+		}
+		a := e2.Attributes[i]
+		vAssert(len(a.Values) == len(a.ByteValues), "value counts equal")
+		for j := range a.Values {
+			if j < len(a.ByteValues) {
+				vAssert(a.Values[j] == string(a.ByteValues[j]), "string and byte value equal")
+			}
+		}
+	}
+	// inductive step for AddValue on an arbitrary consistent attribute
+	at := NewEntryAttribute(vStr("an"), []string{v1})
+	nv := vLen("nadd", 2)
+	add := []string{vStr("x1"), vStr("x2")}[:nv]
+	at.AddValue(add...)
+	vAssert(len(at.Values) == 1+nv && len(at.ByteValues) == 1+nv, "AddValue appends to both")
+	for j := range at.Values {
+		if j < len(at.ByteValues) {
+			vAssert(at.Values[j] == string(at.ByteValues[j]), "string and byte value equal after AddValue")
+		}
+	}
+	vReach("entry")
+}
+
+func vReq() *Request {
+	return &Request{ID: 1, message: &SimpleBindMessage{baseMessage: baseMessage{id: vI64("msgid")}}}
+}
+
+// optPick returns an arbitrary subset/order (with nil Options) of opts.
+func optPick(name string, opts []Option) []Option {
+	n := vLen(name+".n", 3)
+	var out []Option
+	for i := 0; i < n; i++ {
+		k := vLen(fmt.Sprintf("%s.%d", name, i), len(opts)) // == len(opts) -> nil Option
+		if k == len(opts) {
+			out = append(out, nil)
+		} else {
+			out = append(out, opts[k])
+		}
+	}
+	return out
+}
+
+// Every New*Response constructor with any subset of its options: no panic.
+func H_C16_responses() {
+	r := vReq()
+	code := vInt("code")
+	opts := []Option{WithResponseCode(code), WithDiagnosticMessage(vStr("diag")), WithMatchedDN(vStr("mdn")),
+		WithApplicationCode(vInt("app")), WithAttributes(map[string][]string{"a": {vStr("av")}})}
+	sel := optPick("opt", opts)
+	switch vLen("ctor", 5) {
+	case 0:
+		vAssert(r.NewResponse(sel...) != nil, "NewResponse non-nil")
+	case 1:
+		vAssert(r.NewBindResponse(sel...) != nil, "NewBindResponse non-nil")
+	case 2:
+		vAssert(r.NewExtendedResponse(sel...) != nil, "NewExtendedResponse non-nil")
+	case 3:
+		vAssert(r.NewSearchDoneResponse(sel...) != nil, "NewSearchDoneResponse non-nil")
+	case 4:
+		vAssert(r.NewSearchResponseEntry(vStr("edn"), sel...) != nil, "NewSearchResponseEntry non-nil")
+	case 5:
+		vAssert(r.NewModifyResponse(sel...) != nil, "NewModifyResponse non-nil")
+	}
+	vReach("constructed")
+}
+
+// Every NewControl* constructor: no panic; invalid input -> error.
+func H_C16_controls() {
+	opts := []Option{WithCriticality(vBool("crit")), WithControlValue(vStr("cv")), WithGraceAuthNsRemaining(uint(vU64("grace"))),
+		WithSecondsBeforeExpiration(uint(vU64("expire"))), WithErrorCode(uint(vU64("errcode")))}
+	sel := optPick("opt", opts)
+	switch vLen("ctor", 6) {
+	case 0:
+		c, err := NewControlString(vStr("oid"), sel...)
+		vAssert((c == nil) == (err != nil), "ControlString: error xor value")
+	case 1:
+		c, err := NewControlManageDsaIT(sel...)
+		vAssert(c != nil && err == nil, "ManageDsaIT")
+	case 2:
+		c, err := NewControlMicrosoftNotification(sel...)
+		vAssert(c != nil && err == nil, "MicrosoftNotification")
+	case 3:
+		c, err := NewControlMicrosoftServerLinkTTL(sel...)
+		vAssert(c != nil && err == nil, "MicrosoftServerLinkTTL")
+	case 4:
+		c, err := NewControlMicrosoftShowDeleted(sel...)
+		vAssert(c != nil && err == nil, "MicrosoftShowDeleted")
+	case 5:
+		c, err := NewControlBeheraPasswordPolicy(sel...)
+		vAssert((c == nil) == (err != nil), "Behera: error xor value")
+	case 6:
+		c, err := NewControlPaging(vU32("size"), sel...)
+		vAssert(c != nil && err == nil, "Paging")
+	}
+	vReach("constructed")
+}
+
+// Mux registration methods: nil handler -> error, never a panic.
+func H_C16_mux() {
+	m, err := NewMux()
+	vAssert(err == nil && m != nil, "NewMux")
+	var h HandlerFunc
+	if vBool("nonnil") {
+		h = func(*ResponseWriter, *Request) {}
+	}
+	opts := optPick("opt", []Option{WithLabel(vStr("label")), WithBaseDN(vStr("base")), WithFilter(vStr("filter")), WithScope(Scope(vI64("scope")))})
+	var e error
+	switch vLen("method", 7) {
+	case 0:
+		e = m.Bind(h, opts...)
+	case 1:
+		e = m.Search(h, opts...)
+	case 2:
+		e = m.ExtendedOperation(h, ExtendedOperationName(vStr("exname")), opts...)
+	case 3:
+		e = m.Modify(h, opts...)
+	case 4:
+		e = m.Add(h, opts...)
+	case 5:
+		e = m.Delete(h, opts...)
+	case 6:
+		e = m.Unbind(h, opts...)
+	case 7:
+		e = m.DefaultRoute(h, opts...)
+	}
+	vAssert((e != nil) == (h == nil), "error iff nil handler")
+	vReach("registered")
 }
